@@ -523,3 +523,82 @@ func tokenize(s string) []string {
 	}
 	return toks
 }
+
+// Enumerate lists up to max distinct values of term t under the conjunction of
+// asserts, using one incremental session with blocking clauses. complete is
+// true when the enumeration ended with unsat (all values found).
+func (s *Solver) Enumerate(asserts []*Term, t *Term, max int) (vals []uint64, complete bool) {
+	t0 := time.Now()
+	defer func() { s.Time += time.Since(t0) }()
+	refs := make([]string, 0, len(asserts))
+	for _, a := range asserts {
+		if a.IsConst() {
+			if a.C == 0 {
+				s.NUnsat++
+				return nil, true
+			}
+			continue
+		}
+		refs = append(refs, s.ref(a))
+	}
+	tr := s.ref(t)
+	var sb strings.Builder
+	sb.WriteString("(push 1)\n")
+	for _, r := range refs {
+		sb.WriteString("(assert " + r + ")\n")
+	}
+	s.write(sb.String())
+	fail := func(msg string) ([]uint64, bool) {
+		s.LastErr = msg
+		s.restart()
+		s.NUnknown++
+		return vals, false
+	}
+	for {
+		s.write("(check-sat)\n")
+		var res string
+		for {
+			l, err := s.readLine()
+			if err != nil {
+				return fail("solver died: " + err.Error())
+			}
+			if l == "" {
+				continue
+			}
+			if strings.HasPrefix(l, "(error") {
+				return fail(l)
+			}
+			if l == "sat" || l == "unsat" || l == "unknown" || l == "timeout" {
+				res = l
+				break
+			}
+		}
+		if res == "unsat" {
+			s.NUnsat++
+			s.write("(pop 1)\n")
+			return vals, true
+		}
+		if res != "sat" {
+			s.NUnknown++
+			s.write("(pop 1)\n")
+			return vals, false
+		}
+		s.NSat++
+		s.write("(get-value (" + tr + "))\n")
+		txt, err := s.readSexp()
+		if err != nil {
+			return fail("get-value: " + err.Error())
+		}
+		vs, perr := parseValues(txt, 1)
+		if perr != nil {
+			return fail("get-value parse: " + perr.Error())
+		}
+		vals = append(vals, vs[0])
+		if len(vals) >= max {
+			s.write("(pop 1)\n")
+			return vals, false
+		}
+		c := s.ctx.mk(&Term{Op: OConst, S: t.S, C: vs[0]})
+		s.write("(assert (not (= " + tr + " " + constText(c) + ")))\n")
+	}
+}
